@@ -22,8 +22,12 @@ use crate::rrdpsrv::{self, Server};
 use crate::util;
 
 #[derive(Clone, Copy, Debug, Eq, PartialEq)]
-pub enum Fault { Unreachable, NotifyGarbage, ArchiveCorrupt, ObjectsGarbage, StaleManifests, MissingManifest, SnapshotGarbage, TooDeep }
-const FAULTS: [Fault; 8] = [Fault::Unreachable, Fault::NotifyGarbage, Fault::ArchiveCorrupt, Fault::ObjectsGarbage, Fault::StaleManifests, Fault::MissingManifest, Fault::SnapshotGarbage, Fault::TooDeep];
+pub enum Fault { Unreachable, NotifyGarbage, ArchiveCorrupt, ObjectsGarbage, StaleManifests, MissingManifest, SnapshotGarbage, TooDeep,
+    /// The repository also serves a copy of the trust anchor certificate,
+    /// which the TAL names first; the copy is an expired one. No CA is
+    /// published there on account of that, so nothing may change.
+    TaCopyExpired }
+const FAULTS: [Fault; 9] = [Fault::Unreachable, Fault::NotifyGarbage, Fault::ArchiveCorrupt, Fault::ObjectsGarbage, Fault::StaleManifests, Fault::MissingManifest, Fault::SnapshotGarbage, Fault::TooDeep, Fault::TaCopyExpired];
 
 /// The CA depth limit of every run (the TA is level 0).
 const MAX_DEPTH: usize = 3;
@@ -134,6 +138,12 @@ fn run_case(gen: &Gen, dir: std::path::PathBuf, idx: usize, c: &CaseSpec) -> Res
     config.max_ca_depth = MAX_DEPTH;
     let fhost = if c.in_b { hb.clone() } else { hc.clone() };
     let f_rrdp = if c.in_b { c.b_rrdp } else { c.c_rrdp };
+    let copy_uri = format!("rsync://{fhost}/repo/ta0-copy.cer");
+    if c.fault == Fault::TaCopyExpired {
+        // the TAL names the copy in the other repository first
+        let text = format!("{copy_uri}\n{}", clean.tals.iter().find(|(n, _)| n == "alpha").unwrap().1);
+        fs::write(case.dir.join("tals").join("alpha.tal"), text).unwrap();
+    }
     // transport state
     #[derive(Clone, Copy, PartialEq)]
     enum Net { Ok, Unreachable, NotifyGarbage, SnapshotGarbage }
@@ -166,6 +176,11 @@ fn run_case(gen: &Gen, dir: std::path::PathBuf, idx: usize, c: &CaseSpec) -> Res
     let err = |e: String| ("run-failed".to_string(), format!("{c:?}: {e}"));
     // fault-free reference run (own cache)
     publish(&clean);
+    if c.fault == Fault::TaCopyExpired {
+        let p = case.remote_path(&copy_uri);
+        fs::create_dir_all(p.parent().unwrap()).unwrap();
+        fs::write(p, &clean.ta_certs["alpha"]).unwrap();
+    }
     let base = run_with_retry(&config).map_err(err)?;
     let all = origins_of(&clean, &["ta0", "ca1", "ca1c", "ca2"]);
     if base.data.origins != all {
@@ -211,11 +226,21 @@ fn run_case(gen: &Gen, dir: std::path::PathBuf, idx: usize, c: &CaseSpec) -> Res
             publish(&img);
         }
         Fault::StaleManifests | Fault::MissingManifest | Fault::TooDeep => publish(&faulty),
+        Fault::TaCopyExpired => {
+            let mut t = tree(idx, c, false);
+            t.tals[0].ca.cert_fault = Some(crate::rpkigen::Fault::Expired);
+            let expired = Builder::new(gen, stale).build(&t).ta_certs["alpha"].clone();
+            if expired == clean.ta_certs["alpha"] {
+                return Err(("harness".into(), "the expired copy is the good certificate".into()))
+            }
+            fs::write(case.remote_path(&copy_uri), expired).unwrap();
+        }
     }
     let out = run_with_retry(&config).map_err(err)?;
     // CAs outside the faulty repository's subtree
-    let unaffected: Vec<&str> = if c.in_b { vec!["ta0", "ca2"] } else { vec!["ta0", "ca1", "ca1c"] };
-    let affected: Vec<&str> = if c.in_b { vec!["ca1", "ca1c"] } else { vec!["ca2"] };
+    let unaffected: Vec<&str> = if c.fault == Fault::TaCopyExpired { vec!["ta0", "ca1", "ca1c", "ca2"] }
+        else if c.in_b { vec!["ta0", "ca2"] } else { vec!["ta0", "ca1", "ca1c"] };
+    let affected: Vec<&str> = if c.fault == Fault::TaCopyExpired { vec![] } else if c.in_b { vec!["ca1", "ca1c"] } else { vec!["ca2"] };
     let mut want = origins_of(&clean, &unaffected);
     let mut maybe = origins_of(&clean, &affected);
     if c.policy == FilterPolicy::Reject {
@@ -223,7 +248,7 @@ fn run_case(gen: &Gen, dir: std::path::PathBuf, idx: usize, c: &CaseSpec) -> Res
         // resources may go - the TA's two covering VRPs are then undetermined
         for o in want.clone() {
             let asn = o.asn.into_u32();
-            if asn == 64497 || asn == 64498 { want.remove(&o); maybe.insert(o); }
+            if (asn == 64497 || asn == 64498) && c.fault != Fault::TaCopyExpired { want.remove(&o); maybe.insert(o); }
         }
     }
     maybe.extend(origins_of(&faulty, &["deep1", "deep2", "deep3"]));
@@ -275,7 +300,9 @@ pub fn run(ctx: &Ctx) -> Report {
         (both transports), notification file garbage, snapshot garbage, \
         RRDP archive file damaged on disk before an update, every object \
         replaced by garbage, stale manifests under reject, missing \
-        manifest, a CA chain running past max-ca-depth} x unsafe-vrps {reject, accept} (thorough: x validation \
+        manifest, a CA chain running past max-ca-depth, an expired copy \
+        of the TA certificate that the TAL names before the real one (no \
+        CA is published there for that: nothing at all may change)} x unsafe-vrps {reject, accept} (thorough: x validation \
         threads {1, 4}); oracle: the route origins of every CA outside the \
         faulty repository's subtree are exactly those of the fault-free \
         run, and the run succeeds (after at most the one documented \
